@@ -1601,3 +1601,77 @@ def arraystorage(repo):
     res.samples = [f"array view needs: nullptr element={need_null}, ==={need_eq}, assignment={need_assign}"]
     res.analysed = [MU, AV]
     return res
+
+
+def cxx11constexpr(repo):
+    """R-CXX11CONSTEXPR (C07): the guide promises C++11, where the body of a constexpr function is a single return
+    statement (plus static_assert / using / typedef; constructors have an empty body).  Every constexpr function of the
+    runtime headers and of the code templates is checked for that shape: a second statement (`static_cast<void>(x);
+    return true;`) is a hard error under `clang++ -std=c++11 -pedantic-errors` for every translation unit that includes
+    a generated header, and makes `static_assert(View::CouldWriteValue(...))` ill-formed under g++ -std=c++11."""
+    import os
+    res = RuleResult("R-CXX11CONSTEXPR")
+    files = sorted(f"runtime/cpp/{f}" for f in os.listdir(os.path.join(repo.root, "runtime/cpp")) if f.endswith(".h")) + [TEMPLATES]
+    for rel in files:
+        text = re.sub(r"//[^\n]*", "", repo.read(rel))
+        text = re.sub(r"/\*.*?\*/", " ", text, flags=re.S)
+        for mm in re.finditer(r"\bconstexpr\b[^;{}()]*?([A-Za-z_~$][\w${}]*|operator\s*\S+?)\s*\(", text):
+            # find the end of the parameter list
+            i = mm.end() - 1
+            depth = 0
+            while i < len(text):
+                depth += text[i] == "("
+                depth -= text[i] == ")"
+                if depth == 0:
+                    break
+                i += 1
+            rest = text[i + 1:]
+            hm = re.match(r"\s*(?:const\b\s*)?(?:noexcept\b\s*)?(?:->[^{;]*?)?(:[^{;]*?)?\{", rest, re.S)
+            if not hm:
+                continue  # declaration only, or a variable
+            is_ctor = hm.group(1) is not None
+            j = i + 1 + hm.end()
+            depth = 1
+            k = j
+            while k < len(text) and depth:
+                depth += text[k] == "{"
+                depth -= text[k] == "}"
+                k += 1
+            body = text[j:k - 1]
+            # `#if A  return x;  #else  return y;  #endif`: each preprocessor branch is a body of its own
+            branches = [body]
+            if re.search(r"^\s*#", body, re.M):
+                inner = re.sub(r"^\s*#\s*(?:if|ifdef|ifndef|endif)\b[^\n]*$", "", body, flags=re.M)
+                branches = re.split(r"^\s*#\s*(?:else|elif)\b[^\n]*$", inner, flags=re.M)
+
+            def statements_of(b):
+                out, cur, d = [], "", 0
+                for ch in b:
+                    d += ch in "({["
+                    d -= ch in ")}]"
+                    if ch == ";" and d == 0:
+                        out.append(cur.strip())
+                        cur = ""
+                    else:
+                        cur += ch
+                if cur.strip():
+                    out.append(cur.strip())
+                return out
+            per_branch = [statements_of(b) for b in branches]
+            stmts = max(per_branch, key=lambda st_: len([x for x in st_ if x and not re.match(r"(static_assert|using|typedef)\b", x)]))
+            res.instances += 1
+            line = text[:mm.start()].count("\n") + 1
+            real = [s_ for s_ in stmts if s_ and not re.match(r"(static_assert|using|typedef)\b", s_)]
+            name = mm.group(1)
+            if is_ctor or (not real and not stmts):
+                if real:
+                    res.add(f"{rel}|{name}|ctor-body", f"constexpr constructor `{name}` has a non-empty body (C++11 requires it empty)", rel, line, name)
+                continue
+            if len(real) != 1 or not real[0].startswith("return"):
+                res.add(f"{rel}|{name}|{len(real)}-statements", f"constexpr function `{name}` has {len(real)} statements (`{'; '.join(real)[:80]}`): C++11 allows "
+                        "exactly one return statement, so every translation unit including a generated header fails under "
+                        "`-std=c++11 -pedantic-errors` (clang) and the function cannot be used in a constant expression (g++)", rel, line, name)
+    if res.instances < 40:
+        raise AnalysisError(f"only {res.instances} constexpr function definitions recognised")
+    res.analysed = files
+    return res
